@@ -248,6 +248,33 @@ void h_addremove(void)
 u8 g_old[256];
 unsigned char g_lo;
 void cs_addrange_sliced(unsigned char *chars_, unsigned char low, unsigned char high);
+
+/* ---- the MEMBER function addRange on concrete corner ranges (every loop bound is then a constant: complete per pair).
+ *      The symbolic-(lo,hi) proof above runs on a slice of the body text and needs its loop shape; this target does not,
+ *      so a rewrite of addRange in another style is still decided on the corners, including the full range [0,255]. ---- */
+int cs_addrange(const u8 *a, unsigned char lo, unsigned char hi, u8 *a_out);
+#if defined(T_ADDRANGE_CORNERS)
+static void corner(unsigned lo, unsigned hi)
+{
+    u8 a[256], ao[256];
+    __CPROVER_assume(IS_SET(a));
+    cs_addrange(a, (unsigned char)lo, (unsigned char)hi, ao);
+#ifdef TWIN
+    __CPROVER_assert(ALL(k, ao[k] == a[k]), "ensures: TWIN addRange changes nothing (must fail)");
+#else
+    __CPROVER_assert(ALL(k, ao[k] == ((k >= lo && k <= hi) ? 1 : a[k])),
+                     "ensures: addRange(lo,hi) on a corner pair adds exactly [lo,hi] and changes nothing else");
+#endif
+}
+void h_addrange_corners(void)
+{
+    corner(0, 255); corner(0, 0); corner(255, 255); corner(0x80, 0xff); corner(1, 254); corner(0, 127); corner(254, 255);
+#ifdef REACH
+    __CPROVER_assert(0, "reach: all corner pairs return");
+#endif
+}
+#endif
+
 #if defined(T_ADDRANGE)
 void h_addrange(void)
 {
